@@ -887,10 +887,10 @@ def position_tags(c, i):
     ph = math.degrees(math.atan2(p[1], p[0]))
     tags = []
     eps = 1e-9 * max(c["r"][-1], c["z"][-1] - c["z"][0])
-    if r <= eps:
-        tags.append("axis")
-    elif c["r"][0] > 0 and r < c["r"][0] - eps:
+    if c["r"][0] > 0 and r < c["r"][0] - eps:
         tags.append("bore")
+    elif r <= eps:
+        tags.append("axis")
     if any(abs(r - x) <= eps for x in c["r"] if x > 0):
         tags.append("r=face")
     if any(abs(z - x) <= eps for x in c["z"]):
